@@ -22,6 +22,7 @@ import bisect
 import copy
 import json
 import sys
+import time
 
 from . import common
 from . import txhist as TX
@@ -159,6 +160,7 @@ class Runner:
         self.ql = TX.QueryLayer()
         self.pending = []           # (stream, p, inp views, impl views, wire, replay) for the model comparison
         self.last = None
+        self.minimised = False
 
     def fn(self, route):
         """the callable of a route; it remembers the result objects of the last call (typed provenance clause,
@@ -210,7 +212,11 @@ class Runner:
             return bad
         if bad not in (None, "skip"):
             d = dict(rep(), impl_output_us_rel=c10.rel(out))
-            if shrink and not ck.violations:
+            if stream != "session" and head(bad) != "input-modified" and \
+                    head(self.verdict(route, p, TX.build(self.Event, [TX.spec_of(o) for o in objs]), fast)[2]) != head(bad):
+                bad += TX.HISTORY_NOTE
+            elif shrink and (not ck.violations or (stream == "session" and not self.minimised)):
+                self.minimised = self.minimised or stream == "session"
                 bad, d = shrink(bad, d)
             ck.failing_input("C10:" + head(bad), f"[{stream}/{route}] " + bad, d)
             if head(bad) in ("raised", "input-modified"):
@@ -244,9 +250,11 @@ class Runner:
 
 
 def run(ck, c10, Event, flood, labels, have_driver):
+    t0 = time.time()
     rng = ck.rng
     quick = ck.tier == "quick"
     R = Runner(ck, c10, Event, flood, labels, have_driver)
+    TX.make_room(ck)
 
     # -- q2: the grid through the registered function and through a query2 statement
     n_exh, n_samp = (2, 500) if quick else (3, 20_000)
@@ -311,10 +319,12 @@ def run(ck, c10, Event, flood, labels, have_driver):
         R.call("big", route, p, TX.build(Event, specs), replay=lambda specs=specs, route=route, p=p: big_replay(specs, route, p),
                fast=True, shrink=shrink)
     R.compare_with_model()
+    TX.prefer_session_failure(ck)
     ck.coverage["round3"] = {
         "q2": "grid chains rescaled to the 5 s of the registered query function, through functions['flood'] and a query2 statement",
         "session": f"{n_sessions} call sequences on live objects (same / ==-equal / edited-in-between / vandalised results / other pulsetime), routes mixed",
-        "big": [f"{r}: >= {TX.BIG_N} events, p={p}, {'mixed' if m else 'every gap short'}" for r, p, m in bigs]}
+        "big": [f"{r}: >= {TX.BIG_N} events, p={p}, {'mixed' if m else 'every gap short'}" for r, p, m in bigs],
+        "wall_s": round(time.time() - t0, 1)}
 
 
 def big_replay(specs, route, p):
